@@ -247,20 +247,21 @@ PROPS = {
         "module": "HctlProofs.Props.C16",
         "extra_modules": ["HctlProofs.Lemmas.ArchiveCtx"],
         "theorems": ["Hctl.C16.bundle_roundtrip", "Hctl.C16.bdd_entry_reloads", "Hctl.C16.nonbdd_ignored",
-                     "Hctl.C16.empty_label_not_reloaded", "Hctl.C16.lines_unlines", "Hctl.C16.formulae_lines",
+                     "Hctl.C16.lines_unlines", "Hctl.C16.formulae_lines",
                      "Hctl.C16.entries_length", "Hctl.C16.reloaded_context_same_effect",
                      "Hctl.C16.reloaded_context_same_effect_tool"],
         "ks": ["k8"],
         "spec_tied": ["k8"],
         "full": False,
         "not_proved": "partial by nature: the zip container, the file system, Bdd (de)serialisation and aeon printing/parsing are "
-                      "outside the model (round-trip hypothesis hrt); they are exercised by the K8 oracle on every run. Labels that are "
-                      "empty or end in '/' are written but not reloaded (cannot occur as names in formulae; see DESIGN.md)",
+                      "outside the model (round-trip hypothesis hrt); they are exercised by the K8 oracle on every run. The round trip "
+                      "is proved for EVERY label (the former exception — empty labels and labels ending in '/' were written but skipped on "
+                      "reload — was a defect of load_bdd_bundle, repaired, see known_findings.json)",
         "rule": "K8: label->set maps (1-4 labels from 13 shapes incl. dotted, leading digit, non-ASCII; empty/full/random/colour-dependent "
                 "sets) x networks through aeon/bnet/sbml x formula lists; write -> read with a graph rebuilt from model.aeon; "
                 "entry names and formulae.txt vs the model; reloaded sets used as context",
         "assumptions": ["deser (ser s) = s for lib-bdd's string format (checked by the oracle)",
-                        "labels are non-empty and contain no '/' (ValidLabel)"],
+                        ],
     },
     "C17": {
         "module": "HctlProofs.Props.C17",
@@ -458,7 +459,7 @@ _GLUE_NOTE = ("Trusted: Lean kernel, axioms {propext, Classical.choice, Quot.sou
               "observed by the correspondence run, not modelled.")
 MANIFEST_TEXT.update({
     "C16": {"text": "Lean theorems about the archive model: reading back the entries written for a label->set map yields exactly that map "
-                    "(labels whose last path component is not empty, nested labels included; given the BDD string round trip), model.aeon/formulae.txt are never mistaken for sets, and line i of "
+                    "(every label: empty, nested, with dots or a trailing '/'; given the BDD string round trip), model.aeon/formulae.txt are never mistaken for sets, and line i of "
                     "formulae.txt is formula i; the reloaded context has the same effect as the in-memory one for the extended entry point and "
                     "for the tool (reloaded_context_same_effect). Correspondence: the real zip entries and reload vs the model; oracle: set equality after "
                     "reload on a graph rebuilt from the archived model, and reloaded sets used as wild-card context.",
